@@ -1,0 +1,9 @@
+//go:build verif && !(gc && !purego && (amd64 || loong64 || ppc64 || ppc64le || riscv64))
+
+package poly1305
+
+// VerifHasAsm reports whether this build contains an assembly update.
+func VerifHasAsm() bool { return false }
+
+// VerifUpdateAsm falls back to the portable update in builds without assembly.
+func VerifUpdateAsm(v *VerifState, msg []byte) { VerifUpdateGeneric(v, msg) }
